@@ -85,7 +85,7 @@ def result_points(case, r):
 
 # ----------------------------------------------------------------------------- generation
 def gen_cases(rng, tier, per_fn=None):
-    n = per_fn or (60 if tier == "quick" else 600)
+    n = per_fn or (40 if tier == "quick" else 600)
     cases = []
     for fn in pl.FUNCS:
         for _ in range(n):
@@ -127,6 +127,15 @@ def judge_py(case, r):
     info["gap"] = abs(math.sqrt(float(D2)) - d)
     if D2 > (dq + tco) ** 2 or (dq > tco and D2 < (dq - tco) ** 2):
         fails.append(f"|p1-p2| = {math.sqrt(float(D2)):.9g} but d = {d:.9g} (tolerance 1e-6*L = {float(tco):.3e})")
+    ru = r.get("reuse")
+    if ru is not None:
+        # same call, argument arrays reused (overwritten in place) from the previous call: bit-identical result expected
+        if "exc" in ru:
+            fails.append(f"raises {ru['exc']} when the argument arrays of the previous call are reused in place: {ru.get('exc_msg', '')[:100]}")
+        elif ru["d"] != r["d"] or ru["pts"] != r["pts"]:
+            d2 = float.fromhex(ru["d"])
+            fails.append(f"result depends on the call history: d = {d:.9g} with fresh argument arrays but {d2:.9g} when the arrays "
+                         f"of the previous call are overwritten in place and passed again (stale state keyed on object identity?)")
     return fails, info
 
 
@@ -206,6 +215,10 @@ def known_id(case, r):
         m0 = r.get("m0sq") if isinstance(r, dict) else None
         if m0 is not None and 1e-20 <= m0 < 1e-12:
             return "FD5"
+        lx = r.get("lpxn_sq") if isinstance(r, dict) else None
+        if (m0 is not None and lx is not None and m0 < 1e-20 and lx < 1e-20 * max(1.0, pl.scale_L(case["A"], case["B"]) ** 2)
+                and (m0 > 0.0 or lx > 0.0)):
+            return "FD7"          # the line is the circle's axis up to rounding (but not exactly: then the code is right)
     return None
 
 
@@ -229,6 +242,12 @@ def coverage_of_impl(R, pid, cases, tier):
     if rr["status"] != "ok":
         R.notes.append(f"coverage worker failed: {rr['status']} {rr.get('log', '')[-300:]}")
         return
+    for e in rr["result"].get("raised", []):
+        c = sub[e["index"]]
+        R.cov.setdefault("raises_when_interpreted", []).append(dict(fn=c["fn"], exc=e["exc"], msg=e["msg"], case_hash=cm.canon_hash(c)))
+        if not known_id(c, {}):
+            R.failure(f"{c['fn']}: raises {e['exc']} ({e['msg'][:80]}) when run interpreted (NUMBA_DISABLE_JIT=1) although the compiled "
+                      f"call returns a result", c, site=c["fn"])
     files = rr["result"]["files"]
     tot_s = sum(v["statements"] for v in files.values())
     tot_e = sum(v["executed"] for v in files.values())
@@ -457,9 +476,18 @@ def run(tier, seed, replay=None):
     n_coq = n_pyonly = 0
     if have_coq_checker():
         exprs, idx = [], []
+        per_fn_quota = {}
         for i, (c, r) in enumerate(zip(cases, results)):
             if "exc" in r or not infos[i]:
                 continue
+            if tier == "quick" and not replay:
+                # CPU budget of the quick tier: the Coq checker (55 ms/case) judges the corpus, every case the python
+                # oracle rejects, and the first 12 cases per function; the rest is judged by the python exact oracle alone
+                q = per_fn_quota.get(c["fn"], 0)
+                if c["stream"] != "corpus" and id(c) not in {id(x) for x, _, _ in bad} and q >= 12:
+                    n_pyonly += 1
+                    continue
+                per_fn_quota[c["fn"]] = q + 1
             e = coq_case_expr(c, r)
             if e is None:
                 n_pyonly += 1
@@ -488,7 +516,9 @@ def run(tier, seed, replay=None):
                              "outputs, untrusted witness from primlib) DECIDES; the python fractions oracle is evaluated as well and any "
                              "disagreement between the two is reported as a broken correspondence",
          "cases without a Coq verdict (counted in judged_by_python_exact_oracle_only)": "exception / non-finite output / circle with the "
-                             "returned point exactly on the axis: python-exact-oracle"}
+                             "returned point exactly on the axis: python-exact-oracle; QUICK TIER ONLY: the Coq checker judges the corpus, "
+                             "every case the python oracle rejects and the first 12 generated cases per function, the remaining generated "
+                             "cases are judged by the python exact oracle alone (CPU budget); the thorough tier sends every case to Coq"}
         if have_coq_checker() else
         {"all 34 functions": "python-exact-oracle (fractions); decides alone"})
 
